@@ -206,7 +206,7 @@ pub fn run(ctx: &Ctx) -> Result<Ev, String> {
     grid(&mut total);
     let opts = ModelOpts { devices: vec![] };
     let shards = 32;
-    let per = if ctx.thorough { 3_000_000 / shards } else { 100_000 / shards } as u32;
+    let per = if ctx.thorough { 6_000_000 / shards } else { 400_000 / shards } as u32;
     let seed = ctx.seed;
     let ev = par::run_shards("C05", shards, |s| par::prop_shard("C05", seed, s, per, &tree_case(), |c, ev| test_tree(c, ev, &opts)));
     total.merge(ev);
